@@ -32,8 +32,9 @@ def check(chk):
         chk.judge(good, 'C17.writers', st, '%s: query_plan = iter(...)' % fq,
                   'the plan is stored as returned (%s): if it is a list or tuple every later send_request() restarts at its first host - hosts already tried '
                   'are tried again and exhaustion is never reported' % src(v)[:70])
-    if n < 3:
-        raise AnalysisError('query_plan writers not found (%d)' % n)
+    written_by = set(qual_of(f) for st, tgt, f in attr_writes(cl, 'query_plan') if isinstance(st, ast.Assign))
+    if not set(ALLOWED) <= written_by:
+        raise AnalysisError('query_plan writers not found in %s' % sorted(set(ALLOWED) - written_by))
     mq = cl.func('ResponseFuture._make_query_plan')
     s = src(mq)
     chk.judge('self._load_balancer.make_query_plan(self.session.keyspace, self.query)' in s and 'if self._host' in s and '[self._host]' in s, 'C17.writers', mq,
